@@ -31,6 +31,7 @@ from ..errors import InvalidRangeName
 from ..cell import Cell, RangesAssembler, Ref, CellWrapper, InvRangesAssembler
 from ..tokens.operand import XlError, _re_sheet_id, _re_build_id
 from ..functions.text import HexValue
+from ..functions import COMPILING
 
 log = logging.getLogger(__name__)
 BOOK = sh.Token('Book')
@@ -598,6 +599,19 @@ class ExcelModel:
         }
 
         res = dsp()
+
+        # Cells with a volatile function, and whatever depends on them, are
+        # not frozen: they are evaluated at every call.
+        live = {
+            k for k, d in dsp.function_nodes.items()
+            if isinstance(d['function'], CellWrapper) and
+            COMPILING in d['function'].func.dsp.nodes
+        }
+        if live:
+            live = set(dsp.get_sub_dsp_from_workflow(
+                live, graph=dsp.dmap
+            ).nodes)
+            res = {k: v for k, v in res.items() if k not in live}
 
         dsp = dsp.get_sub_dsp_from_workflow(
             outputs, graph=dsp.dmap, reverse=True, blockers=res,
